@@ -374,30 +374,36 @@ Record probe := mkProbe { pr_start : Z; pr_dbs : list (bytes * outcome version_o
 Definition start_code (f : fs) (cfg : list dbcfg) : Z :=
   match startup f cfg with Ok _ => 0 | Err e => e | Panic _ => -1 end.
 
-(* the binary a database would run: complete = the content [good] says this version directory must have *)
-Definition db_probe (f : fs) (good : path -> option bytes) (d : dbcfg) : outcome version :=
-  match startup_db f d with
-  | Ok (Some v) =>
-      match binary_of f d v, good (binary_path (db_repo d) (db_plugin d) v) with
-      | Some (File c), Some c' => if bytes_eqb c c' then Ok v else Err e_not_runnable
-      | _, _ => Err e_not_runnable
-      end
-  | Ok None => Err e_not_installed
+(* complete binaries: the content the path had in the initial state, or the archive's binary at the new path *)
+Definition good_binary (f0 : fs) (o : c27_op) (p : path) (c : bytes) : bool :=
+  (match fs_get f0 p with Some (File c0) => bytes_eqb c c0 | _ => false end)
+  || match o with
+     | DoInstall i =>
+         path_eqb p (N i ++ [dir_of (i_name i)])
+         && match find (fun m => bytes_eqb (fst m) (dir_of (i_name i))) (i_members i) with
+            | Some m => bytes_eqb c (snd m)
+            | None => false
+            end
+     | DoAdd _ => false
+     end.
+
+(* the binary a database would run.  Start-up resolves every configured database first: if one of them fails,
+   no query runs. *)
+Definition db_probe (f : fs) (cfg : list dbcfg) (good : path -> bytes -> bool) (d : dbcfg) : outcome version :=
+  match startup f cfg with
   | Err e => Err e
   | Panic s => Panic s
-  end.
-
-(* complete binaries: those of the initial state and the one in the archive *)
-Definition good_binaries (f0 : fs) (o : c27_op) (p : path) : option bytes :=
-  match o with
-  | DoInstall i =>
-      if path_eqb p (N i ++ [dir_of (i_name i)])
-      then match find (fun m => bytes_eqb (fst m) (dir_of (i_name i))) (i_members i) with
-           | Some m => Some (snd m)
-           | None => None
-           end
-      else match fs_get f0 p with Some (File c) => Some c | _ => None end
-  | DoAdd _ => match fs_get f0 p with Some (File c) => Some c | _ => None end
+  | Ok _ =>
+    match startup_db f d with
+    | Ok (Some v) =>
+        match binary_of f d v with
+        | Some (File c) => if good (binary_path (db_repo d) (db_plugin d) v) c then Ok v else Err e_not_runnable
+        | _ => Err e_not_runnable
+        end
+    | Ok None => Err e_not_installed
+    | Err e => Err e
+    | Panic s => Panic s
+    end
   end.
 
 Inductive c27_case :=
@@ -414,19 +420,26 @@ Definition c27_tie (c : c27_case) : bool :=
       let f := crash (ops_of f0 o) f0 (Z.to_nat k) (Z.to_nat torn) in
       fs_same f after && fs_consistent f
       && (start_code f cfg =? pr_start pr)
-      && all2 (fun d '(n, ob) => bytes_eqb (db_name d) n && outcome_tie vobs_tie (db_probe f (good_binaries f0 o) d) ob) cfg (pr_dbs pr)
-      && Bool.eqb (repos_ok f) (pr_repos pr)
+      && all2 (fun d '(n, ob) => bytes_eqb (db_name d) n && outcome_tie vobs_tie (db_probe f cfg (good_binary f0 o) d) ob) cfg (pr_dbs pr)
+      && Bool.eqb ((start_code f cfg =? 0) && repos_ok f) (pr_repos pr)     (* no query runs if start-up fails *)
+  end.
+
+(* has the new version directory been renamed into place among these steps? *)
+Definition moved_in (o : c27_op) (done : list fs_op) : bool :=
+  match o with
+  | DoInstall i => existsb (fun op => match op with Rename s d => path_eqb s S && path_eqb d (N i) | _ => false end) done
+  | DoAdd _ => false
   end.
 
 (* the property on the observation alone: if everything started and every database ran a complete binary before,
    then after the crash everything starts, every database runs a complete binary — the version it ran before, or
-   the installed one if the command finished — and repositories stay readable *)
+   the installed one once its directory has been renamed into place — and repositories stay readable *)
 Definition c27_spec (c : c27_case) : bool :=
   match c with
   | KSteps _ _ _ => true
   | KCrash f0 cfg o k torn after pr =>
-      let before := map (fun d => db_probe f0 (good_binaries f0 o) d) cfg in
-      let finished := (Z.to_nat k =? length (ops_of f0 o))%nat in
+      let before := map (fun d => db_probe f0 cfg (good_binary f0 o) d) cfg in
+      let finished := moved_in o (firstn (Z.to_nat k) (ops_of f0 o)) in
       if (start_code f0 cfg =? 0) && forallb is_ok before && repos_ok f0 then
         (pr_start pr =? 0)
         && all2 (fun b '(_, ob) =>
